@@ -514,11 +514,11 @@ def verify_function(contract: Contract, registry: dict, known_ids=frozenset(), r
                                     break
                         if hit:
                             r.status, r.finding = "known-finding", hit
-                        elif any("@" in nm for nm in ex.inputs) and contract.replay is None and contract.build_args is None:
+                        elif any(("@" in nm or "[]" in nm) for nm in ex.inputs) and contract.replay is None and contract.build_args is None:
                             # ghost-based contract (denotations, IR links): no concrete input exists to replay;
                             # the obligation held on the committed tree and fails now
                             r.status = "violated-noinput"
-                            r.replay = {"note": "contract is stated over ghost state; counter-model attached, not replayable"}
+                            r.replay = {"note": "contract is stated over ghost state / over-approximated object maps; counter-model attached, not replayable"}
                         elif ob.kind in ("ensures", "raises") and replay:
                             r.replay = _replay(fsrc, contract, ex, args, model, ob, case)
                             if r.replay.get("confirmed"):
